@@ -25,9 +25,22 @@ func ConvertLabelQuery(terms []*v1alpha1.LabelTerm) ([]resource.LabelQueryOption
 			opts = append(opts, resource.NotMatches)
 		}
 
+		// single-value operators: a term without a value is malformed, reject it instead of indexing into it
+		var value string
+
+		//nolint:exhaustive
+		switch term.Op {
+		case v1alpha1.LabelTerm_EQUAL, v1alpha1.LabelTerm_LT, v1alpha1.LabelTerm_LTE, v1alpha1.LabelTerm_LT_NUMERIC, v1alpha1.LabelTerm_LTE_NUMERIC:
+			if len(term.Value) == 0 {
+				return nil, status.Errorf(codes.InvalidArgument, "label query operator %v requires a value", term.Op)
+			}
+
+			value = term.Value[0]
+		}
+
 		switch term.Op {
 		case v1alpha1.LabelTerm_EQUAL:
-			labelOpts = append(labelOpts, resource.LabelEqual(term.Key, term.Value[0], opts...))
+			labelOpts = append(labelOpts, resource.LabelEqual(term.Key, value, opts...))
 		case v1alpha1.LabelTerm_EXISTS:
 			labelOpts = append(labelOpts, resource.LabelExists(term.Key, opts...))
 		case v1alpha1.LabelTerm_NOT_EXISTS: //nolint:staticcheck
@@ -35,13 +48,13 @@ func ConvertLabelQuery(terms []*v1alpha1.LabelTerm) ([]resource.LabelQueryOption
 		case v1alpha1.LabelTerm_IN:
 			labelOpts = append(labelOpts, resource.LabelIn(term.Key, term.Value, opts...))
 		case v1alpha1.LabelTerm_LT:
-			labelOpts = append(labelOpts, resource.LabelLT(term.Key, term.Value[0], opts...))
+			labelOpts = append(labelOpts, resource.LabelLT(term.Key, value, opts...))
 		case v1alpha1.LabelTerm_LTE:
-			labelOpts = append(labelOpts, resource.LabelLTE(term.Key, term.Value[0], opts...))
+			labelOpts = append(labelOpts, resource.LabelLTE(term.Key, value, opts...))
 		case v1alpha1.LabelTerm_LT_NUMERIC:
-			labelOpts = append(labelOpts, resource.LabelLTNumeric(term.Key, term.Value[0], opts...))
+			labelOpts = append(labelOpts, resource.LabelLTNumeric(term.Key, value, opts...))
 		case v1alpha1.LabelTerm_LTE_NUMERIC:
-			labelOpts = append(labelOpts, resource.LabelLTENumeric(term.Key, term.Value[0], opts...))
+			labelOpts = append(labelOpts, resource.LabelLTENumeric(term.Key, value, opts...))
 		default:
 			return nil, status.Errorf(codes.Unimplemented, "unsupported label query operator: %v", term.Op)
 		}
